@@ -14,7 +14,8 @@ F_HINT = "C11-hint-query-ignores-shardkey"
 BB_SHARDKEYS = {"cpu": ["host"], "mem": ["region"], "net": ["dc", "host"], "disk": []}   # as created by cmd/c11bb
 F_HINT_RANGE = "C11-hint-query-hashes-range-sharded"
 F_ALIVE = "C11-alive-set-change-skips-online-shard"
-NV = 64
+F_HW = "C11-hard-write-read-hashes-online-list"
+NV = 128
 FULL = (1 << NV) - 1
 
 
@@ -22,8 +23,8 @@ def _rc(b):
     return "repaired" if b else "current"
 
 
-V_NAMES = {i: "hintrange=%s,batchkey=%s,groupkey=%s,or=%s,and=%s,reset=%s" % (_rc(i & 32), _rc(i & 16), _rc(i & 8), _rc(i & 4), _rc(i & 2), _rc(i & 1))
-           for i in range(NV)}
+V_NAMES = {i: "hardwriteread=%s,hintrange=%s,batchkey=%s,groupkey=%s,or=%s,and=%s,reset=%s" % (
+    _rc(i & 64), _rc(i & 32), _rc(i & 16), _rc(i & 8), _rc(i & 4), _rc(i & 2), _rc(i & 1)) for i in range(NV)}
 AND_CURRENT = sum(1 << i for i in range(NV) if not i & 2)
 
 
@@ -95,10 +96,10 @@ def ccase(c):
     ct = "None" if c["condtags"] is None else "(Some %s)" % coq_list([ctags(ts) for ts in c["condtags"]])
     rs = c.get("reshard")
     resh = "(Some (%s, %s))" % (coq_z(rs["split"]), coq_list([cstr(b) for b in rs["bounds"]])) if rs and rs.get("done") else "None"
-    return ("(let gs := %s in {| cc_msts := %s; cc_qm := %d%%nat; cc_born := %s; cc_walive := %s; cc_reshard := %s; cc_cond := %s; cc_points := %s; "
+    return ("(let gs := %s in {| cc_msts := %s; cc_qm := %d%%nat; cc_born := %s; cc_hardwrite := %s; cc_walive := %s; cc_reshard := %s; cc_cond := %s; cc_points := %s; "
             "cc_condtags := %s; cc_tmin := %s; cc_tmax := %s; cc_qgroups := %s; cc_targets := %s; cc_hints := " + chints(c) + " |})") % (
         coq_list([cgroup(g) for g in groups]), coq_list(msts), c["qm"], coq_list([coq_z(2 * g["born"] - 1 if g.get("resh") else 2 * g["born"]) for g in groups]),
-        coq_list([cnat_list(g.get("walive") or []) for g in groups]), resh,
+        coq_bool(bool(cf.get("hardwrite"))), coq_list([cnat_list(g.get("walive") or []) for g in groups]), resh,
         "(Some %s)" % cexpr(c["cond"]) if c["hascond"] else "None",
         coq_list(pts), ct, coq_z(c["tmin"]), coq_z(c["tmax"]), coq_list(["%d%%N" % x for x in c["qgroups"]]),
         coq_list(["(%d%%N, %s)" % (t["gid"], coq_list(["%d%%N" % s for s in t["sids"]])) for t in c["targets"]]))
@@ -650,11 +651,12 @@ def main(ck):
                     al = g[0]["alive"]
                     sids = [x["id"] for x in g[0]["shards"] or []]
                     moved = sids[al[int(p["hash"]) % len(al)]] != p["sid"]
+                fid = F_HW if cf.get("hardwrite") else F_ALIVE
                 if ((cf["typ"] == "hash" or cf.get("dbsk")) and not qmst.get("initnum") and g and moved
-                        and (g[0].get("walive") or []) != (g[0].get("alive") or []) and ck.match_finding(F_ALIVE)):
-                    known_hits[F_ALIVE] = known_hits.get(F_ALIVE, 0) + 1
-                    if known_hits[F_ALIVE] == 1:
-                        ck.known_finding(F_ALIVE, "the alive shard list changed between write and query and an ONLINE shard holding a "
+                        and (g[0].get("walive") or []) != (g[0].get("alive") or []) and ck.match_finding(fid)):
+                    known_hits[fid] = known_hits.get(fid, 0) + 1
+                    if known_hits[fid] == 1:
+                        ck.known_finding(fid, "the alive shard list changed between write and query and an ONLINE shard holding a "
                                          "matching row is skipped: %s | cond: %s | alive at write %s, at query %s, hard-write %s" % (
                                              msg.split(": ", 1)[1], c["condtext"], g[0].get("walive"), g[0].get("alive"), cf.get("hardwrite")))
                     continue
